@@ -716,6 +716,12 @@ def r5(ctx):
             penv = {k: v[0] for k, v in A.items() if len(v) == 1 and k not in (si[pos].id, "y", "cline", "dd1", "dd2")}
             X = design_form(ctx, f, xdef, si[pos].id, i, penv)
             want = deriv(mu, ("G", P, own))
+            import re as _re
+            temps_ = _re.findall(r"\('var', '(\w+__d\d+(?:_\d+)?)'\)", repr(X))
+            if X != want and temps_:
+                # a name the inliner made for the result of a helper call is still in the design: the helper (several results, arms chosen
+                # by an argument) was not seen through, so what the rows are is not known - that is not a wrong design
+                raise AnalysisError(f"{f.site()}: the design rows for position {kk} go through the result of a helper call that is not seen through ({', '.join(sorted(set(temps_)))})")
             ctx.check("R5", f"{f.site()}::X{kk}=dMu/d{P}[position {kk}]", X == want, f"X{kk} == dMu/d{P}[d{kk}] == {want}",
                       f"the design rows for position {kk} `{X}` are not the partial derivative `{want}` of the mean w.r.t. {P} at that position")
     # scalar blocks: derivative is 1
